@@ -3,6 +3,9 @@ CONSTANTS
   MaxVer = 2
   MaxNodes = 8
   FlagLateLoads = TRUE
+  MaxFail = 0
+  ClearFlags = TRUE
+  RecomputeFlags = TRUE
 SPECIFICATION GSpec
 INVARIANTS NoPrematureFree NothingLeftBehind
 CONSTRAINT Emit
